@@ -564,6 +564,9 @@ static void perform(vh::Trace& tr, Store& s, const Op& op) {
       nv = sub->get_num_views(); orig = sub->get_original_view_nums();
       const std::string stem = (s.data_name.empty() ? std::string("/var/tmp/C02-mem") + std::to_string(cfg_id) + ".s" : s.data_name);
       const std::string ws = stem.substr(0, stem.size() - 2) + "_sub";
+      // (sanitizer pass: not for a one-view subset - the header writer asks the subset geometry for view 1 before it announces
+      //  that subsets cannot be written: out-of-bounds read, see notes/C02.md "observations")
+      if (!(no_oor_seg && views.size() == 1))
       werr = vh::threw([&] { if (sub->write_to_file(ws + ".hs") != Succeeded::yes) throw std::string("no");
                              auto r = ProjData::read_from_file(ws + ".hs"); std::vector<float> o(r->size_all()); r->copy_to(o.begin());
                              for (float f : o) wvals.push_back(as_int(f)); });
